@@ -326,6 +326,7 @@ class Prover:
             m = res[1]
             what = confirm(m)
             if what:
+                self.handled = getattr(self, 'handled', set()); self.handled.add(name)
                 return ('violation', what, m)
             if hints:
                 for hs in hints:
@@ -333,6 +334,7 @@ class Prover:
                     if r2 == z3.sat:
                         what = confirm(m2)
                         if what:
+                            self.handled = getattr(self, 'handled', set()); self.handled.add(name)
                             return ('violation', what, m2)
             self.failed.pop()
             lemmas = refine(m)
@@ -397,6 +399,12 @@ class Check:
                 s = dict(s); s['obligation'] = prefix + s['obligation']; c['samples'].append(s)
         for n in pr.unknown:
             self.inconclusive.append('solver unknown on ' + prefix + n)
+        # an obligation with a counterexample is never a pass: unless the check turned it into a replayed violation,
+        # it is reported as inconclusive
+        handled = getattr(pr, 'handled', set())
+        for n, m in pr.failed:
+            if n not in handled:
+                self.inconclusive.append('counterexample without native confirmation for: ' + prefix + n[:160])
 
     def violation(self, key, desc, replay_obj):
         """a violation that HAS been replayed on the real code. key identifies the failing input class."""
